@@ -18,6 +18,7 @@ Anything outside the supported subset raises AnalysisError (exit 2), never a ver
 from __future__ import annotations
 
 import ast
+import os
 import re
 from dataclasses import dataclass, field
 
@@ -3706,7 +3707,7 @@ def _subscript_arg(m):
 
 
 # ------------------------------------------------------------------ driver with forking
-def run_forking(src: Source, fn, max_forks=512):
+def run_forking(src: Source, fn, max_forks=192):
     """Run `fn(interp)` under every combination of undetermined choices.
     Returns [(assumptions, result-or-signal, interp)]."""
     results = []
@@ -3724,4 +3725,7 @@ def run_forking(src: Source, fn, max_forks=512):
             results.append((list(it.assumptions), e, it))
         if len(results) + len(pending) > max_forks:
             raise Unsupported("too many undetermined decisions in the analysed code")
+    if os.environ.get("PYAB_FORKSTAT"):
+        with open(os.environ["PYAB_FORKSTAT"], "a") as fh:
+            fh.write(f"{len(results)}\n")
     return results
